@@ -26,10 +26,10 @@ done
 if [ "$rc" = kill ]; then kill -KILL $$; fi
 exit $rc
 """
-# logs cwd, selected exported variables and argv; fails when the command text contains FAILME
+# logs cwd, selected exported variables and argv; fails when the command text contains FAILME, dies from SIGKILL when it contains KILLME
 FAKE_SH = """#!/bin/dash
 printf 'S:%s|X=%s|Y=%s|CFLAGS=%s|%s\\n' "$(pwd)" "${X-<unset>}" "${Y-<unset>}" "${CFLAGS-<unset>}" "$*" >> "$SPAWNLOG"
-case "$2" in *FAILME*) exit 1;; esac
+case "$2" in *FAILME*) exit 1;; *KILLME*) kill -KILL $$;; esac
 exit 0
 """
 
@@ -118,7 +118,7 @@ class Scenario:
             req["task"] = inv["task"]
             req["task_args"] = list(inv.get("task_args") or [])
         req["ninja_rc"] = inv.get("ninja_rc", 0)
-        req["fail_markers"] = ["FAILME"]
+        req["fail_markers"] = ["FAILME", "KILLME"]
         if inv.get("subcommand") == "clean":
             req["subcommand"] = "clean"
             req["unused"] = bool(inv.get("unused"))
